@@ -141,6 +141,19 @@ func genIgnore(r *gen.Rng, c *typCtx, rootRef sgen.Ref) ignoreCfg {
 
 var versionLabels = []fieldpath.APIVersion{"v1", "v2", "v3", "v4"}
 
+// equivalentFilterUpdater: the exclusion set given as the equivalent Filter (C19: identical results).
+func (ig ignoreCfg) equivalentFilterUpdater(noop bool) *merge.Updater {
+	if ig.kind != "exclude" {
+		return nil
+	}
+	b := &merge.UpdaterBuilder{Converter: sameVersionConverter{}, ReturnInputOnNoop: noop}
+	b.IgnoreFilter = map[fieldpath.APIVersion]fieldpath.Filter{}
+	for _, v := range versionLabels {
+		b.IgnoreFilter[v] = fieldpath.NewExcludeSetFilter(ig.exclude)
+	}
+	return b.BuildUpdater()
+}
+
 func (ig ignoreCfg) updater(noop bool) *merge.Updater {
 	b := &merge.UpdaterBuilder{Converter: sameVersionConverter{}, ReturnInputOnNoop: noop}
 	switch ig.kind {
@@ -161,6 +174,9 @@ func (ig ignoreCfg) updater(noop bool) *merge.Updater {
 type updState struct {
 	live     *typed.TypedValue
 	managers fieldpath.ManagedFields
+	// tainted: an earlier step of this history already hit finding D8 (pruning under an ignore
+	// configuration); the state is then inconsistent and later inconsistencies are consequences.
+	tainted bool
 }
 
 func copyManaged(m fieldpath.ManagedFields) fieldpath.ManagedFields {
@@ -169,6 +185,21 @@ func copyManaged(m fieldpath.ManagedFields) fieldpath.ManagedFields {
 		out[k] = v
 	}
 	return out
+}
+
+// rootValue: like RootValue, but a history's objects are maps/lists of the root type's principal kind
+// (for the deduced type: maps, as for a custom resource).
+func rootValue(c *typCtx, r *gen.Rng, ref sgen.Ref, depth int, o *sgen.VOpts) interface{} {
+	for i := 0; i < 30; i++ {
+		v := c.gs.RootValue(r, ref, depth, o)
+		if ref.Named != "__untyped_deduced_" {
+			return v
+		}
+		if _, ok := v.(map[string]interface{}); ok {
+			return v
+		}
+	}
+	return map[string]interface{}{"a": int64(1)}
 }
 
 func domUpd(r *gen.Rng, n int, thorough bool, o *Out) {
@@ -209,7 +240,7 @@ func domUpd(r *gen.Rng, n int, thorough bool, o *Out) {
 		}
 		var pool []interface{}
 		for k := 0; k < 4; k++ {
-			pool = append(pool, c.gs.RootValue(cr.Fork(uint64(100+k)), rootRef, 3, vopts))
+			pool = append(pool, rootValue(c, cr.Fork(uint64(100+k)), rootRef, 3, vopts))
 		}
 		for s := 0; s < steps; s++ {
 			ver := versionLabels[cr.Intn(nv)]
@@ -221,7 +252,7 @@ func domUpd(r *gen.Rng, n int, thorough bool, o *Out) {
 				if cr.Chance(75) {
 					cfg = gen.Pick(cr, pool)
 				} else {
-					cfg = c.gs.RootValue(cr, rootRef, 3, vopts)
+					cfg = rootValue(c, cr, rootRef, 3, vopts)
 				}
 				if cr.Chance(30) {
 					cfg = dropSome(cr, cfg)
@@ -296,11 +327,11 @@ func genUpdateObject(r *gen.Rng, c *typCtx, st *updState, rootRef sgen.Ref, tr s
 	liveU := gen.DeepCopy(normalize(st.live.AsValue().Unstructured()))
 	switch r.Intn(5) {
 	case 0: // a fresh object
-		return c.gs.RootValue(r, rootRef, 3, &sgen.VOpts{Plain: r.Chance(70), KeySpace: 3, Dups: r.Chance(30)})
+		return rootValue(c, r, rootRef, 3, &sgen.VOpts{Plain: r.Chance(70), KeySpace: 3, Dups: r.Chance(30)})
 	case 1, 2: // live merged with something
 		other := gen.Pick(r, pool)
 		if r.Bool() {
-			other = c.gs.RootValue(r, rootRef, 3, &sgen.VOpts{Plain: true, KeySpace: 3})
+			other = rootValue(c, r, rootRef, 3, &sgen.VOpts{Plain: true, KeySpace: 3})
 		}
 		a, err1 := typed.AsTyped(value.NewValueInterface(liveU), c.sc, tr, typed.AllowDuplicates)
 		b, err2 := typed.AsTyped(value.NewValueInterface(other), c.sc, tr)
@@ -378,13 +409,20 @@ func stepUpdate(o *Out, c *typCtx, up *merge.Updater, ig ignoreCfg, st *updState
 		pre := copyManaged(st.managers)
 		newObj, managers, err := up.Update(st.live, tv, ver, st.managers, mgr)
 		checkSnapshot(o, op, before, st, tv)
+		if up2 := ig.equivalentFilterUpdater(false); up2 != nil {
+			_, m2, e2 := up2.Update(st.live, tv, ver, st.managers, mgr)
+			if (e2 == nil) != (err == nil) || (err == nil && !m2.Equals(managers)) {
+				o.Fail("C19", "exclusion-set-equals-filter", "", "exclusion-set-equals-filter "+op, op)
+			}
+		}
 		if err != nil {
 			o.Fail("C06", "update-never-fails-on-valid-input", err.Error(), "update-never-fails-on-valid-input "+op, op)
 			return "err"
 		}
 		judgeUpdate(o, op, c, ig, st.live, tv, newObj, pre, managers, mgr, ver)
 		st.live, st.managers = newObj, managers
-		judgeInvariant(o, op, c, tr, st)
+		judgeInvariantIg(o, op, c, tr, st, ig.kind, "", false)
+		judgeIgnored(o, op, ig, managers)
 		return "ok " + encManaged(managers)
 	})
 }
@@ -400,6 +438,16 @@ func stepApply(o *Out, c *typCtx, up *merge.Updater, ig ignoreCfg, st *updState,
 		pre := copyManaged(st.managers)
 		newObj, managers, err := up.Apply(st.live, tv, ver, st.managers, mgr, force)
 		checkSnapshot(o, op, before, st, tv)
+		if up2 := ig.equivalentFilterUpdater(noop); up2 != nil {
+			o2, m2, e2 := up2.Apply(st.live, tv, ver, st.managers, mgr, force)
+			same := (e2 == nil) == (err == nil) && (o2 == nil) == (newObj == nil)
+			if same && err == nil {
+				same = m2.Equals(managers) && (o2 == nil || value.Equals(o2.AsValue(), newObj.AsValue()))
+			}
+			if !same {
+				o.Fail("C19", "exclusion-set-equals-filter", "", "exclusion-set-equals-filter "+op, op)
+			}
+		}
 		// the other mode, on the same state, for C04
 		fObj, fManagers, fErr := up.Apply(st.live, tv, ver, st.managers, mgr, !force)
 		checkSnapshot(o, op, before, st, tv)
@@ -436,7 +484,9 @@ func stepApply(o *Out, c *typCtx, up *merge.Updater, ig ignoreCfg, st *updState,
 			objs = vx.Value(newObj.AsValue())
 		}
 		st.live, st.managers = result, managers
-		judgeInvariant(o, op, c, tr, st)
+		_, hadRecord := pre[mgr]
+		judgeInvariantIg(o, op, c, tr, st, ig.kind, mgr, hadRecord)
+		judgeIgnored(o, op, ig, managers)
 		return "ok obj=" + objs + " " + encManaged(managers)
 	})
 }
@@ -576,7 +626,8 @@ func judgeApply(o *Out, op string, c *typCtx, ig ignoreCfg, up *merge.Updater, s
 		o.Fail("C06", "result-has-field-set", err.Error(), "result-has-field-set "+op, op)
 		return
 	}
-	// C01: the configuration takes effect (plain domain)
+	// C01: the configuration takes effect (plain domain). Under an ignore configuration the same
+	// demand is C19's "values of ignored fields are merged and returned like any other".
 	if plain {
 		ex := result.ExtractItems(fsCfg.Leaves())
 		if cmp, err := cfg.Compare(ex); err != nil || !cmp.IsSame() {
@@ -584,7 +635,18 @@ func judgeApply(o *Out, op string, c *typCtx, ig ignoreCfg, up *merge.Updater, s
 			if cmp != nil {
 				d = cmp.String()
 			}
-			o.Fail("C01", "configuration-takes-effect", d, "configuration-takes-effect "+op, op)
+			if ig.kind == "none" {
+				o.Fail("C01", "configuration-takes-effect", d, "configuration-takes-effect "+op, op)
+			} else {
+				// classify: is every missing field an ignored one lying beneath a named parent that the
+				// applier's previous record (with named parents) contained?  (finding D8)
+				sig := "ignored-values-flow "
+				if _, had := pre[mgr]; had || st.tainted {
+					sig = "ignored-values-flow/D8-prune-under-ignore-configuration "
+					st.tainted = true
+				}
+				o.Fail("C19", "ignored-values-flow", d, sig+op, op)
+			}
 		}
 	}
 	// C05: the applier owns exactly the fields of its configuration, marked applied
@@ -601,11 +663,16 @@ func judgeApply(o *Out, op string, c *typCtx, ig ignoreCfg, up *merge.Updater, s
 	if err == nil {
 		judgeOthers(o, op, ig, cmp, pre, managers, mgr)
 		// C03: fields the manager stops applying are removed
-		if last, had := pre[mgr]; had {
+		if last, had := pre[mgr]; had && ig.kind == "none" {
 			last.Set().Difference(fsCfg).Iterate(func(p fieldpath.Path) {
 				for m, vs := range pre {
 					if m != mgr && vs.Set().Has(p) {
 						return // owned by someone else: stays
+					}
+					// a named (struct) field stays while another manager owns something beneath it:
+					// ownership of a sub-field implies the named parents (EnsureNamedFieldsAreMembers)
+					if m != mgr && p[len(p)-1].FieldName != nil && anyBeneath(p, vs.Set()) {
+						return
 					}
 				}
 				if ig.kind != "none" {
@@ -621,7 +688,7 @@ func judgeApply(o *Out, op string, c *typCtx, ig ignoreCfg, up *merge.Updater, s
 					}
 				}
 			})
-		} else if !cmp.Removed.Empty() {
+		} else if !had && !cmp.Removed.Empty() && sameRootKind(st.live, result) {
 			// first apply removes nothing (except beneath a kind change, which shows as Modified above it)
 			bad := false
 			cmp.Removed.Iterate(func(p fieldpath.Path) {
@@ -634,7 +701,7 @@ func judgeApply(o *Out, op string, c *typCtx, ig ignoreCfg, up *merge.Updater, s
 			}
 		}
 		// C02 (frame, necessary conditions): additions and changes lie at, beneath or above configuration fields
-		if plain {
+		if plain && ig.kind == "none" {
 			cmp.Added.Union(cmp.Modified).Iterate(func(p fieldpath.Path) {
 				if !beneathAny(p, fsCfg) && !anyBeneath(p, fsCfg) {
 					o.Fail("C02", "adds-or-changes-only-config-fields", vx.Path(p), "adds-or-changes-only-config-fields "+op, op)
@@ -656,7 +723,7 @@ func judgeApply(o *Out, op string, c *typCtx, ig ignoreCfg, up *merge.Updater, s
 		if wasNoop != eq {
 			o.Fail("C07", "noop-signal-exact", fmt.Sprintf("returned nil=%v, equal=%v", wasNoop, eq), "noop-signal-exact "+op, op)
 		}
-		if plain {
+		if plain && ig.kind == "none" {
 			again, m2, err := up.Apply(result, cfg, ver, managers, mgr, false)
 			if err != nil {
 				o.Fail("C07", "reapply-fixed-point/error", err.Error(), "reapply-fixed-point/error "+op, op)
@@ -736,19 +803,132 @@ func judgeUpdate(o *Out, op string, c *typCtx, ig ignoreCfg, live, submitted, re
 
 // judgeInvariant: C06 (+ C19 first clause) on the state after a step.
 func judgeInvariant(o *Out, op string, c *typCtx, tr schema.TypeRef, st *updState) {
+	judgeInvariantIg(o, op, c, tr, st, "none", "", false)
+}
+
+func judgeInvariantIg(o *Out, op string, c *typCtx, tr schema.TypeRef, st *updState, igKind string, actor string, actorHadRecord bool) {
 	if _, err := typed.AsTyped(st.live.AsValue(), c.sc, tr, typed.AllowDuplicates); err != nil {
-		o.Fail("C06", "live-object-valid", err.Error(), "live-object-valid "+op, op)
+		if igKind == "none" {
+			o.Fail("C06", "live-object-valid", err.Error(), "live-object-valid "+op, op)
+		} else {
+			sig := "live-object-valid-under-ignore "
+			if actorHadRecord || st.tainted {
+				sig = "live-object-valid-under-ignore/D8-prune-under-ignore-configuration "
+				st.tainted = true
+			}
+			o.Fail("C19", "live-object-valid-under-ignore", err.Error(), sig+op, op)
+		}
 		return
 	}
-	fs, err := st.live.ToFieldSet()
-	if err != nil {
-		return
-	}
+	u := st.live.AsValue().Unstructured()
 	for m, vs := range st.managers {
 		vs.Set().Iterate(func(p fieldpath.Path) {
-			if !anyBeneath(p, fs) {
-				o.Fail("C06", "owned-field-present", m+" owns "+vx.Path(p), "owned-field-present "+op, op)
+			if !present(c.sc, tr, u, p) {
+				if igKind == "none" {
+					o.Fail("C06", "owned-field-present", m+" owns "+vx.Path(p), "owned-field-present "+op, op)
+				} else {
+					sig := "ownership-consistent-under-ignore "
+					if actorHadRecord || st.tainted {
+						sig = "ownership-consistent-under-ignore/D8-prune-under-ignore-configuration "
+						st.tainted = true
+					}
+					o.Fail("C19", "ownership-consistent-under-ignore", m+" owns "+vx.Path(p), sig+op, op)
+				}
 			}
 		})
 	}
+}
+
+func judgeIgnored(o *Out, op string, ig ignoreCfg, managers fieldpath.ManagedFields) {
+	if ig.kind == "none" {
+		return
+	}
+	for m, vs := range managers {
+		if !applyFilter(ig, vs.Set()).Equals(vs.Set()) {
+			o.Fail("C19", "never-owns-ignored", m, "never-owns-ignored "+op, op)
+		}
+	}
+}
+
+func sameRootKind(a, b *typed.TypedValue) bool {
+	x, y := a.AsValue(), b.AsValue()
+	return x.IsMap() == y.IsMap() && x.IsList() == y.IsList()
+}
+
+// present is the independent path resolver of C06: does p designate something in the unstructured
+// object u of type tr?  (fields by key, keyed items by their key fields incl. schema defaults, set
+// members by value, indexes by position; the empty path is the object itself.)
+func present(sc *schema.Schema, tr schema.TypeRef, u interface{}, p fieldpath.Path) bool {
+	if len(p) == 0 {
+		return true
+	}
+	atom, ok := sc.Resolve(tr)
+	if !ok {
+		return false
+	}
+	pe := p[0]
+	switch t := u.(type) {
+	case map[string]interface{}:
+		if pe.FieldName == nil || atom.Map == nil {
+			return false
+		}
+		child, ok := t[*pe.FieldName]
+		if !ok {
+			return false
+		}
+		ft := atom.Map.ElementType
+		if sf, ok := atom.Map.FindField(*pe.FieldName); ok {
+			ft = sf.Type
+		}
+		return present(sc, ft, child, p[1:])
+	case []interface{}:
+		if atom.List == nil {
+			return false
+		}
+		for i, item := range t {
+			match := false
+			switch {
+			case pe.Index != nil:
+				match = i == *pe.Index
+			case pe.Value != nil:
+				switch item.(type) {
+				case map[string]interface{}, []interface{}, nil:
+				default:
+					match = value.Equals(*pe.Value, value.NewValueInterface(item))
+				}
+			case pe.Key != nil:
+				im, isMap := item.(map[string]interface{})
+				if !isMap {
+					break
+				}
+				match = true
+				for _, kf := range *pe.Key {
+					got, has := im[kf.Name]
+					if !has {
+						// defaulted key
+						ea, ok := sc.Resolve(atom.List.ElementType)
+						if !ok || ea.Map == nil {
+							match = false
+							break
+						}
+						sf, _ := ea.Map.FindField(kf.Name)
+						if sf.Default == nil {
+							match = false
+							break
+						}
+						got = sf.Default
+					}
+					if !value.Equals(kf.Value, value.NewValueInterface(got)) {
+						match = false
+						break
+					}
+				}
+			}
+			if match && present(sc, atom.List.ElementType, item, p[1:]) {
+				return true
+			}
+		}
+		return false
+	}
+	return false
 }
